@@ -14,7 +14,7 @@ BUILDS = {'quick': [('k160', 'stone5'), ('b248', 'stone5')],
 RULE = ('honest tables from the Lean spec builder: n_columns in {1,2,3,4,7,8,16} (+0 and 2^32 as malformed), heights 0..5 (quick) / 0..8, '
         'n_verifier_friendly around height+1 (the row-hash boundary) and 0/huge, query sets single/adjacent/all/sparse; corruptions: every '
         'cell of a queried row +1 (sampled when many), two cells swapped within a row / across rows, one value missing / one extra, '
-        'n_columns declared one higher, root +1, sibling +1, trailing auth node. non-trivial = n_columns >= 2 or height >= 1.')
+        'n_columns declared one higher or higher by 2^32 / 2^64 / 2^128, root +1, sibling +1, trailing auth node. non-trivial = n_columns >= 2 or height >= 1.')
 ASSUMPTIONS = ['Keccak-256/Blake2s-256/Poseidon are modelled (executable Lean), compared with the real crates on every case',
                'a hash collision among the random test values is treated as impossible by the oracle']
 TRUSTED = ['Python oracle: honest/extra-trailing-auth => Ok; any cell changed or moved (to an unequal cell), wrong cell count => not Ok']
@@ -71,6 +71,8 @@ def cases(rng, tier, feats, drv_ok):
         add('value-missing', 'reject', v=vals[:-1])
         add('value-extra', 'reject', v=vals + [rng.felt()])
         add('ncolumns+1', 'reject', ncols=nc + 1)
+        for w in (32, 64, 128):   # column counts congruent to the honest one modulo a machine word
+            add(f'ncolumns+2^{w}', 'reject', ncols=nc + (1 << w))
         if auths:
             j = rng.below(len(auths))
             add('sibling+1', 'reject', a=auths[:j] + [(auths[j] + 1) % P] + auths[j + 1:])
